@@ -1,5 +1,6 @@
 import Ufo2ftModel.Drv.GeomJ
 import Ufo2ftModel.Spec.C15
+import Ufo2ftModel.Spec.Good
 namespace Ufo2ft.Drv.C15
 open Lean Ufo2ft Ufo2ft.Drv Ufo2ft.C15
 
@@ -47,7 +48,8 @@ def filter (req : Json) : R Reply := do
         | _ => pure (renderChanged gs after ++
             (if fname == "flatten" && !holdsFlatDepth after incl then ["<nested component left>"] else [])))
       let namesOk := after.names == gs.names
-      return { model, holds := bad.isEmpty && namesOk, info := strsJ bad }
+      return { model, holds := bad.isEmpty && namesOk, info := strsJ bad,
+               hyp := Json.bool (goodCert gs (depthCert gs)) }
 
 def handle (op : String) (req : Json) : R Reply :=
   match op with
